@@ -47,12 +47,111 @@ type hostSpec struct {
 	// time and the world's scheduler decides, at every preemption point, who
 	// continues (VERIF_WORLD carries the world configuration).
 	Preempt bool `json:"preempt,omitempty"`
+	// Host memory model. Hold > 0: the host keeps the last Hold returned
+	// strings alive (an undo ring), reads each of them a second time just
+	// before it frees it (when it falls out of the ring, or at the end of the
+	// history) and reports both readings. ReuseIn: every host thread owns ONE
+	// input buffer that it refills for each call and scribbles over after the
+	// call has returned, so the same address carries different texts.
+	Hold    int  `json:"hold,omitempty"`
+	ReuseIn bool `json:"reuse_in,omitempty"`
 }
 
 type hostResult struct {
 	Thread int    `json:"thread"`
 	Output []byte `json:"output"`
 	Panic  string `json:"panic,omitempty"`
+	// second reading of the same returned buffer, taken just before the host
+	// frees it (host memory model with Hold > 0)
+	Late     []byte `json:"late,omitempty"`
+	LateRead bool   `json:"late_read,omitempty"`
+}
+
+// hostMem is the memory a simulated host owns: per-thread input buffers and
+// the ring of returned strings it has not freed yet. Calls are serialised by
+// the baton, so no lock is needed.
+type hostMem struct {
+	hold    int
+	reuseIn bool
+	inBuf   map[int]*C.char
+	inCap   map[int]int
+	ring    []heldResult
+	results *[]hostResult
+}
+
+type heldResult struct {
+	idx int
+	ptr *C.char
+}
+
+func newHostMem(spec *hostSpec, results *[]hostResult) *hostMem {
+	return &hostMem{hold: spec.Hold, reuseIn: spec.ReuseIn, inBuf: map[int]*C.char{}, inCap: map[int]int{}, results: results}
+}
+
+func (m *hostMem) release(h heldResult) {
+	r := &(*m.results)[h.idx]
+	r.Late = []byte(C.GoString(h.ptr))
+	r.LateRead = true
+	C.free(unsafe.Pointer(h.ptr))
+}
+
+func (m *hostMem) drain() {
+	for _, h := range m.ring {
+		m.release(h)
+	}
+	m.ring = nil
+}
+
+// call makes call number idx on behalf of host thread t.
+func (m *hostMem) call(t, idx int, in []byte) (out []byte, pan string) {
+	if !m.reuseIn && m.hold == 0 {
+		return callExport(in)
+	}
+	defer func() {
+		if r := recover(); r != nil {
+			pan = fmt.Sprint(r)
+		}
+	}()
+	var cs *C.char
+	if m.reuseIn {
+		if m.inCap[t] < len(in)+1 {
+			if m.inBuf[t] != nil {
+				C.free(unsafe.Pointer(m.inBuf[t]))
+			}
+			m.inCap[t] = 2*len(in) + 64
+			m.inBuf[t] = (*C.char)(C.malloc(C.size_t(m.inCap[t])))
+		}
+		cs = m.inBuf[t]
+		buf := unsafe.Slice((*byte)(unsafe.Pointer(cs)), m.inCap[t])
+		copy(buf, in)
+		buf[len(in)] = 0
+		defer func() {
+			// the editor goes on typing into its buffer
+			for i := 0; i < m.inCap[t]-1; i++ {
+				buf[i] = '#'
+			}
+			buf[m.inCap[t]-1] = 0
+		}()
+	} else {
+		cs = (*C.char)(C.CBytes(append(append([]byte{}, in...), 0)))
+		defer C.free(unsafe.Pointer(cs))
+	}
+	ret := FormatPacketDslExport(cs)
+	if ret == nil {
+		return nil, "nil return"
+	}
+	out = []byte(C.GoString(ret))
+	if m.hold == 0 {
+		C.free(unsafe.Pointer(ret))
+		return out, ""
+	}
+	m.ring = append(m.ring, heldResult{idx: idx, ptr: ret})
+	if len(m.ring) > m.hold {
+		old := m.ring[0]
+		m.ring = m.ring[1:]
+		defer m.release(old) // after this call's own result has been stored
+	}
+	return out, ""
 }
 
 func callExport(in []byte) (out []byte, pan string) {
@@ -96,36 +195,44 @@ func runHost(specPath string) {
 	// thread); the baton decides who runs, one call at a time, so the
 	// interleaving is exactly the recorded one.
 	type job struct {
+		idx  int
 		in   []byte
 		done chan hostResult
 	}
+	results := make([]hostResult, len(spec.Calls))
+	mem := newHostMem(&spec, &results)
 	chans := make([]chan job, spec.Threads)
 	for t := range chans {
 		chans[t] = make(chan job)
 		go func(t int) {
 			runtime.LockOSThread()
 			for j := range chans[t] {
-				out, pan := callExport(j.in)
+				out, pan := mem.call(t, j.idx, j.in)
 				j.done <- hostResult{Thread: t, Output: out, Panic: pan}
 			}
 		}(t)
 	}
-	results := make([]hostResult, 0, len(spec.Calls))
+	store := func(idx int, r hostResult) {
+		// a late reading of this very call may already have been recorded
+		r.Late, r.LateRead = results[idx].Late, results[idx].LateRead
+		results[idx] = r
+	}
 	if spec.Threads == 1 {
 		// a single-threaded host: every call comes from the same thread, back
 		// to back, with no hand-over in between (per-thread / per-P caches such
 		// as sync.Pool see the same caller again)
-		for _, c := range spec.Calls {
-			out, pan := callExport(c.Input)
-			results = append(results, hostResult{Thread: 0, Output: out, Panic: pan})
+		for k, c := range spec.Calls {
+			out, pan := mem.call(0, k, c.Input)
+			store(k, hostResult{Thread: 0, Output: out, Panic: pan})
 		}
 		spec.Calls = nil
 	}
-	for _, c := range spec.Calls {
-		j := job{in: c.Input, done: make(chan hostResult, 1)}
+	for k, c := range spec.Calls {
+		j := job{idx: k, in: c.Input, done: make(chan hostResult, 1)}
 		chans[c.Thread%spec.Threads] <- j
-		results = append(results, <-j.done)
+		store(k, <-j.done)
 	}
+	mem.drain()
 	outData, _ := json.Marshal(results)
 	if err := os.WriteFile(spec.Out, outData, 0o644); err != nil {
 		fmt.Fprintln(os.Stderr, "verif host:", err)
